@@ -71,8 +71,8 @@ def extract_p_index_statement():
     return {'kept': kept, 'index_expr': index_expr, 'dropped': dropped + ['<final expression> ' + re.sub(r'\s+', ' ', tail)]}, fn.text, dt
 
 
-KANI_QUICK = ['min_max_le3', 'sum_le3', 'count_le3', 'not_le3', 'mean_le2', 'percentile_index_len_le_2p40']
-KANI_THOROUGH = ['min_max_le5', 'sum_le5', 'count_le5', 'mean_le3', 'percentile_index_len_le_2p46']
+KANI_QUICK = ['min_max_le8', 'sum_le8', 'count_le8', 'not_le8', 'mean_le2', 'percentile_index_len_le_2p40']
+KANI_THOROUGH = ['min_max_le16', 'sum_le16', 'count_le16', 'mean_le3', 'percentile_index_len_le_2p46']
 
 B5 = '0,1,127,128,255'
 
